@@ -312,6 +312,7 @@ class PyModel:
         ob.att = False
         if to_transient:
             ob.key = None
+            ob.delf = False
 
     def expunge_states(self, states, to_transient):
         for o in states:
@@ -332,10 +333,11 @@ class PyModel:
         to_expunge = sorted(set(f.new) | set(self.snew))
         self.expunge_states(to_expunge, True)
         for o, old, new in sorted(f.ks):
+            if o in to_expunge:
+                continue
             self.safe_discard(o)
             self.objs[o].key = old
-            if o not in to_expunge:
-                self.replace(o)
+            self.replace(o)
         for o in sorted(set(f.deleted) | set(self.sdel)):
             if self.objs[o].key is None:
                 raise OutOfScope("exception inside _restore_snapshot")
@@ -387,8 +389,9 @@ class PyModel:
                 if o not in p.deleted:
                     p.deleted.append(o)
             for o, old, new in f.ks:
-                if any(e[0] == o for e in p.ks):
-                    self.flag("g2")
+                for e in p.ks:
+                    if e[0] == o:
+                        old = e[1]
                 p.ks = [e for e in p.ks if e[0] != o] + [[o, old, new]]
 
     def close_frame(self, f):
@@ -656,8 +659,6 @@ class PyModel:
     def save_or_update(self, o):
         ob = self.objs[o]
         if ob.key is None:
-            if ob.delf:
-                self.flag("g3")
             self.autobegin()
             if o not in self.snew:
                 self.snew.append(o)
@@ -732,9 +733,11 @@ class PyModel:
             else:
                 self.t_rollback(f)
         elif c == CLOSE:
-            if any(ob.delf and ob.att and ob.key is not None for ob in objs):
-                self.flag("g6")
-            allst = list(self.imap.values()) + list(self.snew)
+            indel = set(o for f in self.stack for o in f.deleted)
+            if any(ob.delf and ob.att and ob.key is not None and i not in indel for i, ob in enumerate(objs)):
+                self.flag("g6")     # in the deleted state, but no open transaction refers to it
+            allst = list(self.imap.values()) + list(self.snew) + [
+                i for i in sorted(indel) if objs[i].delf and objs[i].att and i not in self.imap.values() and i not in self.snew]
             self.imap = {}
             self.snew = []
             self.sdel = []
@@ -1133,7 +1136,19 @@ def oracle(c, obs):
         if k == NESTED:
             if code == 0:
                 saved[nh] = dict(W)
+                # begin_nested() flushes first: everything pending belongs to the enclosing scope
+                for o, (lc, key, did, dv, modf, indel, exp) in enumerate(rec[1]):
+                    if lc == 1 or (lc == 2 and (modf or indel)):
+                        return "step %d (begin_nested): object %d still pending / modified / marked deleted after the savepoint was taken" % (i, o)
+                if prev is not None and rec[4][0]:
+                    L = _logical(prev)
+                    if W != L:
+                        return "step %d (begin_nested): rows at the savepoint %s != user-visible table before it %s" % (i, sorted(W.items()), sorted(L.items()))
             nh += 1
+        if code == 0 and k == COMMIT and eoc:
+            for o, (lc, key, did, dv, modf, indel, exp) in enumerate(rec[1]):
+                if lc == 3:
+                    return "step %d (commit): object %d is still in the deleted state after the outermost commit (expire_on_commit)" % (i, o)
         if code == 0 and k in (COMMIT, ROLLBACK, TCOMMIT, TROLLBACK):
             for o, (lc, key, did, dv, modf, indel, exp) in enumerate(rec[1]):
                 if lc == 2:
@@ -1167,10 +1182,8 @@ def oracle(c, obs):
 
 _FINDING_OF_GUARD = {
     "g1": "C33-outer-savepoint-rollback-skips-inner-restore",
-    "g2": "C33-key-switch-merge-loses-original-key",
-    "g3": "C33-stale-deleted-flag-on-expunged-object",
     "g5": "C33-delete-of-deleted-object-reregisters-it",
-    "g6": "C33-close-keeps-deleted-objects-attached",
+    "g6": "C33-deleted-object-stays-attached-without-expire-on-commit",
 }
 
 
@@ -1198,8 +1211,9 @@ LEVEL_TEXT = (
     "for every history, no IllegalStateChangeError, only the innermost transaction can be DEACTIVE, every "
     "transaction moves ACTIVE -> DEACTIVE -> CLOSED only, illegal calls raise and change nothing; the "
     "declare_states table is regenerated from the source on every run. T2 session_agrees_with_db: REFUTED "
-    "for unrestricted histories (five witnesses = five known findings, replayed on the implementation); "
-    "GUARDED version proved for every history outside the five defective regions: after every operation "
+    "for unrestricted histories (three witnesses = the three findings still open, replayed on the implementation; "
+    "the witnesses of the three repaired ones are positive examples now); "
+    "GUARDED version proved for every history outside the three defective regions: after every operation "
     "every persistent object has its row and equals it, nothing is left pending/modified after a "
     "commit/rollback - by an invariant relating every open transaction (and savepoint) to the snapshot it "
     "would restore, proved preserved by all 13 operations including failing flushes at any statement. "
@@ -1208,12 +1222,13 @@ LEVEL_TEXT = (
 )
 LEVEL_NOTE = (
     "partial. Guard of the proved agreement theorem (coq/orm/SessTxnSpec.v guard): g1 handle.rollback() of a "
-    "savepoint that is not the innermost open one; g2 handle.commit()/Session.commit() releasing a savepoint "
-    "whose key switch meets a key switch of the same object in an enclosing scope (incl. unflushed primary-key "
-    "changes; for Session.commit this is a limit of the proof, not a defect); g3 add() of an object whose "
-    "_deleted flag survived an expunge; g5 delete() of an object already in the deleted state; g6 close() while "
-    "an object is in the deleted state; and: no new/add/assign/delete while a failed flush waits for its "
-    "rollback. g1 g2 g3 g5 g6 are reproduced defects (findings/C33.json). T3 is partial: the value side of the "
+    "savepoint that is not the innermost open one; g5 delete() of an object already in the deleted state; g6 "
+    "close() while an object is in the deleted state and no open transaction refers to it (expire_on_commit="
+    "False leaves committed-deleted objects attached); and: no new/add/assign/delete while a failed flush waits "
+    "for its "
+    "rollback. g1 g5 g6 are reproduced defects (findings/C33.json); the former clauses g2 (key switches of one "
+    "object in a savepoint and an enclosing scope) and g3 (stale _deleted flag) are gone with the repairs "
+    "f8f802f and 0c90c34, g6 shrank with 9732dc8. T3 is partial: the value side of the "
     "nested-transaction reference (the rows a flush writes are exactly the pending object changes) is not "
     "proved, only compared on the implementation after every operation (oracle: commit/release/rollback laws "
     "on the user-visible table). Outside the model (Unmodelled, never generated): row switch (pending object "
